@@ -21,7 +21,7 @@ Here is a semantic property of the library that is supposed to hold:
 Your task: produce {n} DIFFERENT, independent source changes to the library (each a small realistic edit a developer might plausibly make: a refactor slip, an off-by-one, a wrong comparison, an over-eager optimisation, a changed constant or table cell, a regex tweak, two cooperating sites that each look fine alone ...) such that each change
   1. BREAKS the property above (for at least one input in the quantified domain),
   2. still imports/compiles and still passes the existing test-suite exactly as the baseline does (92 pass, the same 3 fail),
-  3. needs something SPECIFIC to manifest - an unusual input, a boundary value, a particular combination or multi-step sequence - not something ordinary use would expose at once. Prefer subtle changes over blatant ones; do not simply delete functionality or raise exceptions unconditionally.
+  3. needs something SPECIFIC to manifest - an unusual input, a boundary value, a particular combination or multi-step sequence - not something ordinary use would expose at once. Prefer subtle changes over blatant ones; do not simply delete functionality or raise exceptions unconditionally. Make the {n} changes of different KINDS: at least one of them should depend on state or on a combination - e.g. a memo/cache or scratch attribute that makes an answer depend on an earlier call, a value that is only wrong when two options or two unusual inputs meet, a helper changed in a way that is fine for every caller but one, an edit in a shared constant/regex/table that is harmless where it is made and wrong somewhere else - rather than a single wrong constant.
 Each change should touch library source under {wt}/athlib (or {wt}/js/src if the property is about the JS port), not the tests.
 
 For each change i = 1..{n} write, in the directory {wt}/OUT/ (create it):
